@@ -151,7 +151,10 @@ def python_side(case, res):
     ir = smallir.make(gtirb)
     lookup = ir.get_by_uuid
     pv = auxref.to_python(tree, jv, gtirb, lookup, prefer_uuid=bool(case.get("pu")))
-    ser = gtirb.Serialization()
+    ser = gtirb.AuxData.serializer if case.get("shared") else gtirb.Serialization()
+    if case.get("disturb") is not None:
+        c07_auxrt.disturb(gtirb, ser, case["disturb"])
+        res.tag("disturbed-serializer")
     buf = io.BytesIO()
     try:
         ser.encode(buf, pv, tname)
@@ -261,8 +264,8 @@ def strategy(java):
         )
     else:
         base = auxgen.typed_values(max_depth=4)
-    return st.tuples(base, st.integers(1, 4), st.booleans()).map(
-        lambda t: {"t": t[0]["t"], "v": t[0]["v"], "rot": t[1], "pu": t[2]}
+    return st.tuples(base, st.integers(1, 4), st.booleans(), st.booleans(), st.one_of(st.none(), st.integers(0, 40))).map(
+        lambda t: {"t": t[0]["t"], "v": t[0]["v"], "rot": t[1], "pu": t[2], "shared": t[3], "disturb": t[4]}
     )
 
 
